@@ -19,6 +19,7 @@ func init() {
 		if tt, ok := t.(*testing.T); ok {
 			TestHammerOneKey(tt)
 			TestHammerFreshSeconds(tt)
+			TestHammerBigSweep(tt)
 		}
 	}
 }
@@ -163,6 +164,75 @@ func TestHammerFreshSeconds(t *testing.T) {
 					}
 				}
 			}
+		}
+	}
+}
+
+// TestHammerBigSweep: one sweep finds hundreds or thousands of entries due while another
+// goroutine acknowledges those very keys and registers them again with a deadline an hour
+// away (what the broker does when an identifier is recycled). Whatever the interleaving, an
+// old entry resolves exactly once, and a new entry is never expired by a sweep that ran
+// long before its deadline.
+func TestHammerBigSweep(t *testing.T) {
+	rounds := ev.Scale(30, 300)
+	for _, n := range []int{200, 300, 600, 2000} {
+		c := map[string]interface{}{"scenario": "acknowledge and re-register the keys of a running big sweep", "due_entries": n, "rounds": rounds}
+		ev.Case(true, c, "hammer-big-sweep")
+		ev.Count("hammer_rounds", int64(rounds))
+		early, unresolved, twice := 0, 0, 0
+		for r := 0; r < rounds; r++ {
+			q := ack.NewQueue()
+			old := make([]int32, n+1)
+			var final int32
+			var earlyNew int32
+			for k := 1; k <= n; k++ {
+				k := k
+				st, _, _ := mkStored("pub1", int32(k))
+				q.Insert("s", st, t0.Add(time.Second), func(expired bool, _, _ packet.Packet) {
+					atomic.AddInt32(&old[k], 1)
+					for i := 0; i < 50; i++ { // a little work, as a retransmission or an identifier release would be
+						runtime.Gosched()
+					}
+				})
+			}
+			var wg sync.WaitGroup
+			start := make(chan struct{})
+			wg.Add(2)
+			go func() {
+				defer wg.Done()
+				<-start
+				q.Expire(t0.Add(10 * time.Second))
+			}()
+			go func() {
+				defer wg.Done()
+				<-start
+				for k := n; k >= 1; k-- {
+					p, _, _ := mkAck("puback", int32(k))
+					q.Ack("s", p)
+					st, _, _ := mkStored("pub1", int32(k))
+					q.Insert("s", st, t0.Add(time.Hour), func(expired bool, _, _ packet.Packet) {
+						if expired && atomic.LoadInt32(&final) == 0 {
+							atomic.AddInt32(&earlyNew, 1)
+						}
+					})
+				}
+			}()
+			close(start)
+			wg.Wait()
+			atomic.StoreInt32(&final, 1)
+			q.Expire(t0.Add(2 * time.Hour))
+			early += int(earlyNew)
+			for k := 1; k <= n; k++ {
+				switch v := atomic.LoadInt32(&old[k]); {
+				case v == 0:
+					unresolved++
+				case v > 1:
+					twice++
+				}
+			}
+		}
+		if early+unresolved+twice > 0 {
+			ev.Fail(t, "queue-hammer", c, "%d due entries per sweep: %d new registrations (deadline one hour away) were expired by the sweep at 10 s; %d old entries never resolved, %d resolved twice", n, early, unresolved, twice)
 		}
 	}
 }
